@@ -165,15 +165,24 @@ class Lin:
 
 class Vec:
     """Element-wise vector over a finite index set (status table rows)."""
-    __slots__ = ("vals",)
+    __slots__ = ("vals", "frozen")
 
     def __init__(self, vals):
         self.vals = list(vals)
+        self.frozen = False
 
     @staticmethod
     def view(row: list) -> "Vec":
         v = Vec([])
         v.vals = row            # shares storage with the row it was taken from (numpy view semantics)
+        return v
+
+    @staticmethod
+    def slice_copy(vals) -> "Vec":
+        """Value of a basic slice. numpy hands out a *view*; the model hands out a copy and refuses in-place writes
+        through it (Unsupported) rather than silently losing them."""
+        v = Vec(vals)
+        v.frozen = True
         return v
 
     def __len__(self):
@@ -226,7 +235,27 @@ class Mat(Obj):
             "tolist": lambda ev, call, args, kw: [list(r) for r in self.rows],
             "transpose": lambda ev, call, args, kw: Mat([list(c) for c in zip(*self.rows)]) if self.rows else Mat([]),
             "copy": lambda ev, call, args, kw: Mat([list(r) for r in self.rows]),
+            "astype": lambda ev, call, args, kw: Mat([list(r) for r in self.rows]),
+            # a value that identifies the content (what bytes / a hashable digest are used for)
+            "tobytes": lambda ev, call, args, kw: ("bytes",) + tuple(x for r in self.rows for x in r),
+            "tostring": lambda ev, call, args, kw: ("bytes",) + tuple(x for r in self.rows for x in r),
+            "ravel": lambda ev, call, args, kw: Vec([x for r in self.rows for x in r]),
+            "any": lambda ev, call, args, kw: any(bool(x) for r in self.rows for x in r),
+            "all": lambda ev, call, args, kw: all(bool(x) for r in self.rows for x in r),
+            "sum": lambda ev, call, args, kw: self._sum(kw.get("axis", args[0] if args else None)),
+            "max": lambda ev, call, args, kw: max(x for r in self.rows for x in r),
+            "min": lambda ev, call, args, kw: min(x for r in self.rows for x in r),
         }
+
+    def _sum(self, axis):
+        num = lambda x: 1 if x is True else (0 if x is False else x)
+        if axis is None:
+            return sum(num(x) for r in self.rows for x in r)
+        if axis == 1:
+            return Vec([sum(num(x) for x in r) for r in self.rows])
+        if axis == 0:
+            return Vec([sum(num(x) for x in col) for col in zip(*self.rows)])
+        raise Unsupported(f"sum over axis {axis!r}")
 
     def abs_len(self):
         return len(self.rows)
@@ -254,7 +283,79 @@ class Mat(Obj):
                 if not 0 <= i < len(self.rows):
                     raise IndexOut(i, len(self.rows), node)
             return Mat([self.rows[i] for i in idx])
+        ncols = len(self.rows[0]) if self.rows else 0
+        if isinstance(idx, slice):
+            return Mat(self.rows[idx])              # a range of rows: the row lists are shared (view semantics)
+        if isinstance(idx, tuple) and len(idx) == 2:
+            r, c = idx
+            if isinstance(r, slice) and isinstance(c, int) and not isinstance(c, bool):
+                if not -ncols <= c < ncols:
+                    raise IndexOut(c, ncols, node)
+                return Vec.slice_copy([row[c] for row in self.rows[r]])
+            if isinstance(r, int) and not isinstance(r, bool) and isinstance(c, slice):
+                if not 0 <= r < len(self.rows):
+                    raise IndexOut(r, len(self.rows), node)
+                return Vec.slice_copy(self.rows[r][c])
+            if isinstance(r, slice) and isinstance(c, slice):
+                if c == slice(None):
+                    return Mat(self.rows[r])
+                m = Mat([row[c] for row in self.rows[r]])
+                m.frozen = True
+                return m
         raise Unsupported(f"matrix index {idx!r}", node)
+
+    def abs_setitem(self, idx, op, value, ev, stmt):
+        """Stores through slices: m[a:b, k] = v, m[a:b] = v, m[i, a:b] = v, m[a:b, c:d] = v (scalars broadcast)."""
+        if getattr(self, "frozen", False):
+            raise Unsupported("in-place write through a slice view (not modelled)", stmt)
+        ncols = len(self.rows[0]) if self.rows else 0
+        binop = AUG_BINOP.get(op)
+
+        def put(row, j, v):
+            row[j] = v if op == "=" else _arith(binop, row[j], v, stmt)
+
+        def seq(v, n, what):
+            if isinstance(v, Vec):
+                v = v.vals
+            if isinstance(v, (list, tuple)):
+                if len(v) != n:
+                    raise AbsRaise("ValueError", stmt)      # numpy: could not broadcast
+                return list(v)
+            return [v] * n
+        if isinstance(idx, slice):
+            idx = (idx, slice(None))
+        if isinstance(idx, tuple) and len(idx) == 2:
+            r, c = idx
+            rows_i = list(range(len(self.rows)))[r] if isinstance(r, slice) else None
+            cols_j = list(range(ncols))[c] if isinstance(c, slice) else None
+            if rows_i is not None and isinstance(c, int) and not isinstance(c, bool):
+                if not -ncols <= c < ncols:
+                    raise IndexOut(c, ncols, stmt)
+                vals = seq(value, len(rows_i), "column")
+                for i, v in zip(rows_i, vals):
+                    put(self.rows[i], c, v)
+                return
+            if cols_j is not None and isinstance(r, int) and not isinstance(r, bool):
+                if not 0 <= r < len(self.rows):
+                    raise IndexOut(r, len(self.rows), stmt)
+                vals = seq(value, len(cols_j), "row")
+                for j, v in zip(cols_j, vals):
+                    put(self.rows[r], j, v)
+                return
+            if rows_i is not None and cols_j is not None:
+                if isinstance(value, Mat):
+                    if len(value.rows) != len(rows_i) or any(len(x) != len(cols_j) for x in value.rows):
+                        raise AbsRaise("ValueError", stmt)
+                    for i, vr in zip(rows_i, value.rows):
+                        for j, v in zip(cols_j, vr):
+                            put(self.rows[i], j, v)
+                    return
+                vals = seq(value, len(cols_j), "row")
+                for i in rows_i:
+                    for j, v in zip(cols_j, vals):
+                        put(self.rows[i], j, v)
+                return
+        raise Unsupported(f"matrix store index {idx!r}", stmt)
 
     def __repr__(self):
         return f"Mat{self.rows!r}"
@@ -266,9 +367,62 @@ class Mat(Obj):
         return id(self)
 
 
+NUMPY_PRINT_THRESHOLD = 1000     # numpy.get_printoptions()['threshold']: larger arrays are summarised with '...'
+NUMPY_EDGE_ITEMS = 3
+
+
+def render_array(v) -> str:
+    """Text of a numeric array as numpy prints it, as far as *equality of two renderings* is concerned: arrays of more
+    than 1000 items are summarised (3 leading / 3 trailing items per axis), floats carry 8 significant decimals."""
+    def item(x):
+        if isinstance(x, bool):
+            return str(x)
+        if isinstance(x, int):
+            return str(x)
+        if isinstance(x, float):
+            r = f"{x:.8f}".rstrip("0")
+            return r if not r.endswith(".") else r
+        if isinstance(x, Fraction):
+            return item(float(x))
+        raise Unsupported("text rendering of a symbolic value")
+
+    def line(vals, summarise):
+        if summarise and len(vals) > 2 * NUMPY_EDGE_ITEMS:
+            return ([item(x) for x in vals[:NUMPY_EDGE_ITEMS]], [item(x) for x in vals[-NUMPY_EDGE_ITEMS:]])
+        return ([item(x) for x in vals], None)
+    if isinstance(v, Vec):
+        head, tail = line(v.vals, len(v.vals) > NUMPY_PRINT_THRESHOLD)
+        width = max((len(t) for t in head + (tail or [])), default=0)
+        txt = " ".join(t.rjust(width) for t in head)
+        if tail is not None:
+            txt += " ... " + " ".join(t.rjust(width) for t in tail)
+        return "[" + txt + "]"
+    rows = v.rows
+    size = sum(len(r) for r in rows)
+    summarise = size > NUMPY_PRINT_THRESHOLD
+    shown = rows
+    cut = False
+    if summarise and len(rows) > 2 * NUMPY_EDGE_ITEMS:
+        shown = rows[:NUMPY_EDGE_ITEMS] + rows[-NUMPY_EDGE_ITEMS:]
+        cut = True
+    parts = [line(r, summarise) for r in shown]
+    width = max((len(t) for h, tl in parts for t in h + (tl or [])), default=0)
+    out = []
+    for k, (h, tl) in enumerate(parts):
+        txt = " ".join(t.rjust(width) for t in h)
+        if tl is not None:
+            txt += " ... " + " ".join(t.rjust(width) for t in tl)
+        out.append("[" + txt + "]")
+        if cut and k == NUMPY_EDGE_ITEMS - 1:
+            out.append("...")
+    return "[" + "\n ".join(out) + "]"
+
+
 def render(v, top: bool = True) -> str:
     """Python-like text rendering of an abstract value (sets rendered in a canonical order)."""
-    if isinstance(v, (Sym, Lin, Vec)):
+    if isinstance(v, Vec) or (isinstance(v, Mat) and type(v) is Mat):
+        return render_array(v)
+    if isinstance(v, (Sym, Lin)):
         raise Unsupported("text rendering of a symbolic value")
     if isinstance(v, str):
         return v if top else repr(v)
@@ -772,7 +926,9 @@ class Evaluator:
             if isinstance(base, (list, tuple, str)):
                 return base[lo:hi:st]
             if isinstance(base, Vec):
-                return Vec(base.vals[lo:hi:st])
+                return Vec.slice_copy(base.vals[lo:hi:st])
+            if isinstance(base, Mat) and type(base) is Mat:
+                return base.abs_getitem(slice(lo, hi, st), n)
             raise Unsupported("slice of abstract value", n)
         idx = self.ev(n.slice)
         if isinstance(base, Sym):
@@ -1141,11 +1297,35 @@ class Evaluator:
                     value = _arith(AUG_BINOP[op], curv, value, stmt)
                 ob.abs_setattr(target.attr, value, self, stmt)
                 return
+        if isinstance(target, ast.Subscript):
+            try:
+                base0 = self.ev(target.value)
+            except Unsupported:
+                base0 = None
+            idx0 = None
+            if isinstance(base0, (Vec, Mat)) and type(base0) in (Vec, Mat):
+                idx0 = self.ev(target.slice)
+            sliced = isinstance(idx0, slice) or (isinstance(idx0, tuple) and any(isinstance(i, slice) for i in idx0))
+            if sliced and isinstance(base0, Mat):
+                base0.abs_setitem(idx0, op, value, self, stmt)
+                return
+            if sliced and isinstance(base0, Vec) and isinstance(idx0, slice):
+                if base0.frozen:
+                    raise Unsupported("in-place write through a slice view (not modelled)", stmt)
+                pos = list(range(len(base0.vals)))[idx0]
+                vals = value.vals if isinstance(value, Vec) else (list(value) if isinstance(value, (list, tuple)) else [value] * len(pos))
+                if len(vals) != len(pos):
+                    raise AbsRaise("ValueError", stmt)
+                for i, v in zip(pos, vals):
+                    base0.vals[i] = v if op == "=" else _arith(AUG_BINOP[op], base0.vals[i], v, stmt)
+                return
         if isinstance(target, ast.Subscript) and not isinstance(target.slice, ast.Slice):
             try:
                 base = self.ev(target.value)
             except Unsupported:
                 base = None
+            if isinstance(base, Vec) and base.frozen:
+                raise Unsupported("in-place write through a slice view (not modelled)", stmt)
             if isinstance(base, (list, Vec, dict)):
                 self._concrete_store(base, self.ev(target.slice), op, value, stmt)
                 return
@@ -1508,6 +1688,14 @@ class Evaluator:
             return True, Mat([base.vals[i:i + args[1]] for i in range(0, len(base.vals), args[1])])
         if attr == "astype":
             return True, Vec(list(base.vals))
+        if attr in ("tobytes", "tostring") and not args:
+            return True, ("bytes",) + tuple(base.vals)
+        if attr in ("max", "min") and not args and base.vals:
+            return True, (max if attr == "max" else min)(base.vals)
+        if attr in ("any", "all") and not args:
+            return True, (any if attr == "any" else all)(bool(x) for x in base.vals)
+        if attr == "argsort" and not args:
+            return True, Vec(sorted(range(len(base.vals)), key=lambda i: base.vals[i]))
         raise Unsupported(f"method {attr} of a vector", call)
 
     def _apply(self, f, args, node):
